@@ -1,6 +1,6 @@
 (* C01 — trial lifecycle: legal transitions only, completed trials immutable, illegal calls fail and change nothing.
    Statements only; `step s (rpc, oracle)` is one RPC on the model of the service (Model/Service.v). *)
-From VZ Require Import Base.Prelude Model.Service Proofs.ServiceP.
+From VZ Require Import Base.Prelude Model.Service Proofs.ServiceP Proofs.WedgeP Proofs.FrameP.
 
 (* ---- illegal calls: documented error class, stored data unchanged (every state, every argument) *)
 Theorem C01_missing_study_fails_unchanged : forall s r po k,
@@ -97,10 +97,24 @@ Example C01_nonvacuous :
               get_trial 1 (n_trials n) = Some t /\ trial_mutable t = true.
 Proof. vm_compute. eexists. eexists. repeat split; reflexivity. Qed.
 
-(* FULL statement (not proved as one theorem): for every history and every trial present before and after a step,
-   trans_ok holds.  Proved above for CompleteTrial / AddTrialMeasurement / StopTrial and all failing calls;
-   SuggestTrials (REQUESTED -> ACTIVE inside loops), CreateTrial / Delete*, UpdateMetadata and CheckEarlyStop are
-   covered by the correspondence check and the per-step monitor only. *)
-Definition C01_frame_full : Prop := forall s ro k n n' id t t',
+(* THE FRAME THEOREM: across ANY RPC (all 17 kinds, any arguments, any Pythia answer, success or failure), every trial that is
+   stored before and after the call has evolved by a legal transition: same id and parameters, state moved along
+   REQUESTED -> ACTIVE -> STOPPING -> SUCCEEDED | INFEASIBLE or stayed, and a completed trial kept its state, measurements and
+   final measurement.  For every state with unique study keys and unique trial ids ... *)
+Theorem C01_frame : forall s ro k n n' id t t', wf s -> wf_t s ->
   get_node k (nodes s) = Some n -> get_node k (nodes (step_state s ro)) = Some n' ->
   get_trial id (n_trials n) = Some t -> get_trial id (n_trials n') = Some t' -> trans_ok t t'.
+Proof. intros s ro k n n' id t t' W Wt. exact (frame_step s ro W Wt k n n' id t t'). Qed.
+Print Assumptions C01_frame.
+
+(* ... and those two invariants hold in every reachable state, so along every history every step is legal *)
+Theorem C01_frame_along_every_history : forall ops ro k n n' id t t',
+  get_node k (nodes (run_all ops init_state)) = Some n ->
+  get_node k (nodes (step_state (run_all ops init_state) ro)) = Some n' ->
+  get_trial id (n_trials n) = Some t -> get_trial id (n_trials n') = Some t' -> trans_ok t t'.
+Proof. intros ops ro. exact (frame_history ops ro). Qed.
+Print Assumptions C01_frame_along_every_history.
+
+(* PARTIAL: trials that are deleted and later re-created under a reused id are different trials (the service allocates
+   max+1, see known finding C12-max-trial-id-decreases); the theorem speaks about one step at a time.  That the handler
+   programs of Model/Service.v are the code is the correspondence's business. *)
